@@ -190,7 +190,7 @@ def spec_select(R, C, d):
 # ----------------------------------------------------------------------------- enumeration
 def slices_for(labels, full):
     n = len(labels)
-    ints = list(range(0, n + 2)) if full else [1, n, n + 1]
+    ints = list(range(0, n + 2)) if full else [0, 1, n, n + 1]
     ends = [None] + [['i', z] for z in ints] + [['l', l] for l in (labels if full else labels[:1] + labels[-1:])] + [['l', 'Q']]
     steps = [None, 1, 2, 3, 0, -1, -2] if full else [None, 2, -1, 0]
     return [[a, b, c] for a in ends for b in ends for c in steps]
